@@ -285,6 +285,7 @@ func witnesses(c *core.Ctx) {
 	}
 	dstWitness(c)
 	dstPass(c)
+	ladderWitness(c)
 	unalignedIntervalWitness(c)
 }
 
@@ -445,11 +446,20 @@ func randomCase(c *core.Ctx, r *rand.Rand, i int) {
 		for j := 0; j < 16; j++ {
 			opRangeGlue(c, r)
 		}
-	case kind < 15:
+	case kind < 14:
 		c.Branch("stream/planner")
 		c.NonTrivial()
 		for j := 0; j < 16; j++ {
 			randomPlan(c, r)
+		}
+	case kind < 15:
+		if r.Intn(2) == 0 {
+			c.Branch("stream/ladder")
+			ladderCase(c, r)
+		} else {
+			c.Branch("stream/text-windows")
+			c.NonTrivial()
+			textCase(c, r)
 		}
 	case kind < 17:
 		c.Branch("stream/broker")
@@ -979,5 +989,33 @@ func dstPass(c *core.Ctx) {
 				}
 			}
 		}
+	}
+}
+
+// ladderWitness: deterministic ladders in case 0 (sorted, unsorted, duplicate type adjacent and not
+// adjacent, empty).
+func ladderWitness(c *core.Ctx) {
+	for _, ivs := range [][]int64{{10 * sec, 5 * min, hour}, {hour, 10 * sec, 5 * min}, {10 * sec, hour, min}, {5 * min, 10 * sec, 30 * min},
+		{hour, min, 4 * hour}, {10 * sec, min, hour}, {10 * sec}, {}} {
+		types := map[timeutil.IntervalType]bool{}
+		for _, v := range ivs {
+			types[timeutil.Interval(v).Type()] = true
+		}
+		want := len(ivs) > 0 && len(types) == len(ivs)
+		guarded(c, "validate | "+joinInts(ivs), false, func() string {
+			err := mkOption(ivs).Validate()
+			if (err == nil) != want {
+				c.Fail("ladder-validate", fmt.Sprintf("DatabaseOption.Validate() on intervals %v (types pairwise distinct: %v) = %v", ivs, want, err))
+			}
+			switch {
+			case err == nil:
+				return "ok"
+			case strings.Contains(err.Error(), "cannot be empty"):
+				return "empty"
+			case strings.Contains(err.Error(), "duplicate interval type"):
+				return "duplicate"
+			}
+			return "error"
+		})
 	}
 }
